@@ -22,7 +22,20 @@ object of the pool is compared with its model:
 The list manipulations of the model are written from the operation's meaning
 (select = pick, delete = drop, insert = put before index, ...), with plain
 Python loops; numpy.take/delete/insert/append/lexsort are never used on the
-model side.
+model side.  A sort is accepted in ANY order that is sorted by the keys and
+shows, position by position, the complete record of one old entity (ties are
+not required to be stable).
+
+Breeding-value matrices store standardised values: their cells are read through
+unscale() and compared to 1e-9 relative; everything else is compared exactly
+(values, dtypes, None-ness).
+
+Situations in which the unchanged library is known/suspected to violate the
+property are *gated*: ordinary histories avoid them, the unit "suspected-defect
+triggers" forces each of them in scripted 1-3 step histories and reports every
+one under its own failure class (the T_* names below).  Before generating
+ordinary histories a unit probes the triggers; a situation that no longer fails
+on the tree under test is mixed into the ordinary histories automatically.
 """
 import copy as _copy
 import importlib
@@ -231,12 +244,12 @@ class Run(object):
         self.chrmod = int(case.get("chrmod", 2))
         self.posmod = int(case.get("posmod", 5))
         self.allow = set(case.get("allow", ()))
+        self.focus = case.get("focus")      # scripted trigger cases: force the suspected situation
         self.counter = {}
         self.blk = {}
         self.nblk = 0
         self.nameless = {"taxa": set(), "vrnt": set()}
         self.pool = []
-        self.trace = []
         self.cur = {}
         self.used = set()        # triggers actually exercised by the current step
         self.maxlen = int(case.get("maxlen", 9))
@@ -500,7 +513,7 @@ class Run(object):
         return role in ("taxa", "vrnt", "trait", "phase")
 
     def generic_ok(self, ent, op):
-        return True
+        return True     # every operation has an axis-generic form on every class that has the specific one
 
     def snap_args(self, kwargs):
         out = {}
@@ -598,7 +611,15 @@ class Run(object):
         d = self.diff_states(self.state(ent, ent.obj), self.state(ent, twin))
         if d:
             raise Fail("copy", "copy.deepcopy(%s) differs from the original in %s" % (ent.tag, d))
+        self.no_sharing(ent, twin, "copy.deepcopy(%s)" % ent.tag)
         return twin
+
+    def no_sharing(self, ent, other, what):
+        """a deep copy owns its arrays: an in-place edit of one object must not reach the other"""
+        for n in self.state(ent, other):
+            a, b = getattr(ent.obj, n), getattr(other, n)
+            if isinstance(a, numpy.ndarray) and isinstance(b, numpy.ndarray) and a.size and numpy.shares_memory(a, b):
+                raise Fail("copy", "%s shares the memory of %s with the original" % (what, n))
 
     # ----- building blocks of new entities
     def other_ents(self, ent, role, new):
@@ -628,7 +649,11 @@ class Run(object):
         if as_object and not (sp.get("bv") and role != "taxa"):
             self.pool.append(block)
             stat("values passed as a matrix object")
-            return dict(values=block.obj)
+            kw = dict(values=block.obj)
+            if self.rnd.random() < 0.2:
+                stat("values passed as a matrix object plus explicit label arrays")
+                kw.update(self.label_kwargs(role, new, omit=block.absent))
+            return kw
         stat("values passed as ndarray + label arrays")
         if sp.get("bv"):
             vals = block.obj.unscale()
@@ -723,11 +748,12 @@ class Run(object):
             forms.append("scalar")
             forms.append("scalar")
         elif T_SCALAR_INSERT in self.allow:
-            forms = ["scalar"]
-            self.used.add(T_SCALAR_INSERT)
+            forms = ["scalar"] if self.focus == T_SCALAR_INSERT else forms + ["scalar"]
         if sp.get("square") and role == "taxa":
             self.used.add(T_SQ_INSERT)
         form = self.rnd.choice(forms)
+        if form == "scalar" and ax0 != 0:
+            self.used.add(T_SCALAR_INSERT)
         stat("insert/incorp obj form: " + form)
         if form == "scalar":
             obj = self.rnd.randrange(-n, n + 1)
@@ -834,7 +860,7 @@ class Run(object):
         n = len(lst)
         perm = list(range(n))
         if self.grouped(ent, role):
-            if self.rnd.random() < 0.6 or T_REORDER_GROUPED in self.allow:
+            if self.rnd.random() < 0.6 or self.focus == T_REORDER_GROUPED:
                 self.cur["reorder_grouped"] = True
                 stat("reorder with an arbitrary permutation while grouped")
                 self.rnd.shuffle(perm)
@@ -952,10 +978,14 @@ class Run(object):
             if self.rnd.random() < 0.2:
                 arrs.insert(self.rnd.randrange(len(arrs) + 1), None)
             keys = tuple(arrs)
+            if all(a is not None and a.dtype == numpy.int64 for a in arrs) and self.rnd.random() < 0.3:
+                keys = numpy.stack(arrs)         # the documented (k, N) array form
+                stat("sort keys given as a (k, N) array")
         kw = {} if group else dict(keys=keys)
         op = "group" if group else "sort"
         what = self.describe(ent, op, role, kw)
-        snap = self.snap_args({"keys": [k for k in keys if k is not None]} if keys is not None else {})
+        keylist = [numpy.asarray(k) for k in keys if k is not None] if keys is not None else []
+        snap = self.snap_args({"keys": keylist} if keylist else {})
         twin = self.make_twin(ent)
         ret = self.call(what, getattr(ent.obj, op + "_" + role), **kw)
         ax = self.axis_arg(ent, role)
@@ -965,8 +995,8 @@ class Run(object):
             self.call(what + " via sort(axis=%d)" % ax, twin.sort, keys=keys, axis=ax)
         if ret is not None:
             raise Fail("result-type", "%s returned a value" % what)
-        if keys is not None:
-            self.check_args(what, {"keys": [k for k in keys if k is not None]}, snap)
+        if keylist:
+            self.check_args(what, {"keys": keylist}, snap)
         neworder = self.match_order(ent, role, old, keynames)
         ent.ents = self.other_ents(ent, role, neworder)
         self.check(ent, "after %s" % what)
@@ -982,9 +1012,6 @@ class Run(object):
             if got != want:
                 raise Fail("group-flag", "after %s is_grouped_%s() is %s although the group label array %s" % (
                     what, role, got, "exists" if want else "is absent"))
-        else:
-            if role in GROUP and getattr(ent.obj, "is_grouped_" + role)():
-                pass    # validity is checked by check(); sort is allowed to drop the metadata
         return True
 
     def op_ungroup(self, ent, role):
@@ -1049,6 +1076,8 @@ class Run(object):
         d = self.diff_states(self.state(ent, ent.obj), self.state(ent, r))
         if d:
             raise Fail("copy", "%s differs from the original in %s" % (what, d))
+        if "deepcopy" in how:
+            self.no_sharing(ent, r, what)
         self.pool.append(e)
 
     # ----- genotyping protocols
@@ -1088,9 +1117,6 @@ class Run(object):
             raise Fail("result-type", "%s returned %s" % (what, type(out).__name__))
         e = Entry(out, ents, kname, roles, phsum, "g%d" % len(self.pool), ent.absent)
         self.check(e, "result of %s" % what)
-        for role in ("taxa", "vrnt"):
-            if self.grouped(ent, role) and not self.grouped(e, role) and GROUP[role][0] in self.present:
-                raise Fail("group-flag", "%s: the operand is grouped along %s, the result is not" % (what, role))
         self.check(ent, "operand after %s" % what)
         self.pool.append(e)
         return True
@@ -1315,19 +1341,41 @@ def make_case(rnd, kname, allow=(), script=(), nsteps=None, present=None, **over
     return case
 
 
+_HEALTHY = {}
+
+
+def healthy_triggers():
+    """suspected-defect situations that do NOT fail on the tree under test (fixed or never broken): these are mixed
+    into the ordinary histories, so that a repaired operation gets the full history coverage; situations that still
+    fail stay confined to the trigger unit and cannot cut ordinary histories short"""
+    if "set" not in _HEALTHY:
+        bad = set()
+        for case in gen_triggers(random.Random(977), "quick"):
+            try:
+                failed = run_history(case)[0]
+            except Exception:
+                failed = True
+            if failed:
+                bad.add(case["focus"])
+        _HEALTHY["set"] = sorted(t for t in ALL_TRIGGERS if t not in bad)
+    return list(_HEALTHY["set"])
+
+
 def gen_main(rnd, tier, group, n_quick, n_thorough):
     n = n_quick if tier == "quick" else n_thorough
     names = GROUPS[group]
+    allow = healthy_triggers()
     for i in range(n):
-        yield make_case(rnd, names[i % len(names)])
+        yield make_case(rnd, names[i % len(names)], allow=allow)
 
 
 def gen_genotyping(rnd, tier):
-    n = 700 if tier == "quick" else 12000
+    n = 4000 if tier == "quick" else 42000
     protos = [("DenseUnphasedGenotyping", False), ("DenseMaskedUnphasedGenotyping", False),
               ("DenseMaskedUnphasedGenotyping", True), ("DenseMaskedPhasedGenotyping", False),
               ("DenseMaskedPhasedGenotyping", True)]
     labels = class_labels("DensePhasedGenotypeMatrix")
+    allow = healthy_triggers()
     for i in range(n):
         proto, inv = protos[i % len(protos)]
         pre = [None] * rnd.choice([0, 0, 1, 2])
@@ -1346,7 +1394,7 @@ def gen_genotyping(rnd, tier):
         else:
             present = [l for l in labels if rnd.random() < 0.6 or l in ("vrnt_mask",)]
         case = make_case(rnd, "DensePhasedGenotypeMatrix", script=script, nsteps=len(script), present=present,
-                         cap={"phase": 2})
+                         cap={"phase": 2}, allow=allow)
         case["sizes"]["phase"] = rnd.choice([1, 2, 2])
         case["sizes"]["vrnt"] = rnd.choice([1, 2, 3, 4, 5])
         yield case
@@ -1384,7 +1432,7 @@ TRIGGER_PLAN = [
 
 
 def gen_triggers(rnd, tier):
-    per = 14 if tier == "quick" else 120
+    per = 20 if tier == "quick" else 400
     for trig, classes, scripts in TRIGGER_PLAN:
         for i in range(per):
             kname = classes[i % len(classes)]
@@ -1406,7 +1454,8 @@ def gen_triggers(rnd, tier):
             labels = class_labels(kname)
             present = [l for l in labels if rnd.random() < 0.85 or l in ("taxa_grp", "vrnt_chrgrp", "vrnt_phypos", "vrnt_mask", "trait", "taxa")]
             lead = [None] * rnd.choice([0, 0, 1])
-            case = make_case(rnd, kname, allow=[trig], script=lead + script, nsteps=len(lead) + len(script), present=present)
+            case = make_case(rnd, kname, allow=[trig], script=lead + script, nsteps=len(lead) + len(script), present=present,
+                             focus=trig)
             if trig in (T_REORDER_GROUPED, T_GT_EMPTY, T_GT_NOMASK):
                 case["sizes"][script[0][1]] = rnd.choice([2, 3, 4, 5])
                 case["grpmod"] = rnd.choice([2, 3])
@@ -1439,6 +1488,9 @@ def drive(ctx, cases, stop_unknown=3, cap_known=3):
                 if unknown >= stop_unknown:
                     break
     ctx.notes.append("features exercised: " + "; ".join("%s=%d" % kv for kv in sorted(STATS.items())))
+    if "set" in _HEALTHY:
+        ctx.notes.append("suspected-defect situations found healthy on this tree and mixed into the ordinary histories: %s" % (
+            ", ".join(_HEALTHY["set"]) or "none"))
 
 
 RULE = ("seeded random operation histories (<= 6 steps, VERIF_SEED) on a pool of live objects whose cells encode the "
@@ -1449,37 +1501,37 @@ RULE = ("seeded random operation histories (<= 6 steps, VERIF_SEED) on a pool of
 
 
 @unit(P, "ring[histories: DenseMatrix and single-axis base classes]", "R", bounded=True,
-      note="bounded: <= 6 operations per history, axis lengths 1..9 (start 1..4), 1-3 matrix dimensions, quick 900 / thorough 16000 seeded histories")
+      note="bounded: <= 6 operations per history, axis lengths 1..9 (start 1..4), 1-3 matrix dimensions, quick 6000 / thorough 80000 seeded histories")
 def u_ring_base(ctx):
     ctx.rule = RULE
-    drive(ctx, gen_main(ctx.rng, ctx.tier, "base", 900, 16000))
+    drive(ctx, gen_main(ctx.rng, ctx.tier, "base", 6000, 80000))
 
 
 @unit(P, "ring[histories: taxa-variant, phased and genotype matrices]", "R", bounded=True,
-      note="bounded: <= 6 operations per history, axis lengths 1..9 (start 1..4), quick 700 / thorough 12000 seeded histories")
+      note="bounded: <= 6 operations per history, axis lengths 1..9 (start 1..4), quick 4000 / thorough 45000 seeded histories")
 def u_ring_tv(ctx):
     ctx.rule = RULE
-    drive(ctx, gen_main(ctx.rng, ctx.tier, "taxa-variant", 700, 12000))
+    drive(ctx, gen_main(ctx.rng, ctx.tier, "taxa-variant", 4000, 45000))
 
 
 @unit(P, "ring[histories: taxa-trait, square-taxa and coancestry matrices]", "R", bounded=True,
-      note="bounded: <= 6 operations per history, axis lengths 1..9 (start 1..4), quick 800 / thorough 14000 seeded histories")
+      note="bounded: <= 6 operations per history, axis lengths 1..9 (start 1..4), quick 4500 / thorough 60000 seeded histories")
 def u_ring_tt(ctx):
     ctx.rule = RULE
-    drive(ctx, gen_main(ctx.rng, ctx.tier, "taxa-trait-square", 800, 14000))
+    drive(ctx, gen_main(ctx.rng, ctx.tier, "taxa-trait-square", 4500, 60000))
 
 
 @unit(P, "ring[histories: breeding-value matrix]", "R", bounded=True,
       note="bounded: <= 6 operations per history, axis lengths 1..9; cells compared through unscale() to 1e-9 relative "
-           "(the class re-standardises on every taxa operation); quick 600 / thorough 10000 seeded histories")
+           "(the class re-standardises on every taxa operation); quick 4000 / thorough 50000 seeded histories")
 def u_ring_bv(ctx):
     ctx.rule = RULE
-    drive(ctx, gen_main(ctx.rng, ctx.tier, "breeding-value", 600, 10000))
+    drive(ctx, gen_main(ctx.rng, ctx.tier, "breeding-value", 4000, 50000))
 
 
 @unit(P, "ring[genotyping protocols inside histories]", "R", bounded=True,
       note="bounded: phased genotype matrices with <= 2 phases, <= 9 taxa/variants, 0-3 operations before and 0-2 after one of "
-           "the three genotyping protocols (invert on/off); quick 700 / thorough 12000 seeded histories")
+           "the three genotyping protocols (invert on/off); quick 4000 / thorough 42000 seeded histories")
 def u_ring_gt(ctx):
     ctx.rule = RULE + "; the genotyping step maps a phased genotype matrix to a new (un)phased one that joins the pool"
     drive(ctx, gen_genotyping(ctx.rng, ctx.tier))
@@ -1489,7 +1541,7 @@ def u_ring_gt(ctx):
       note="bounded: scripted 1-3 step histories that exercise exactly one suspected defect of the unchanged library each "
            "(generic incorp/reorder of the base classes, reorder while grouped, scalar-index insert off axis 0, square-taxa "
            "insert/concat, square-taxa-trait copies, breeding-value trait-axis and inherited taxa operations, masked "
-           "genotyping of a vanished chromosome); quick 14 / thorough 120 cases per class of input")
+           "genotyping of a vanished chromosome or without a mask); quick 20 / thorough 400 cases per class of input")
 def u_ring_trig(ctx):
     ctx.rule = RULE + "; scripted: the named operation is forced on the first object"
     drive(ctx, gen_triggers(ctx.rng, ctx.tier), stop_unknown=6)
